@@ -466,6 +466,12 @@ def run_cross_rules(ctx):
         ('interval_bad_bracket', lambda: M.IntervalGrader(answers='{1,2}')),
         ('interval_bad_bracket', lambda: M.IntervalGrader(answers=['[', '1', '2', '>'])),
         ('interval_wrong_length', lambda: M.IntervalGrader(answers=['[', '1', ']'])),
+        ('interval_bracket_not_single_character', lambda: M.IntervalGrader(answers=['[(', '1', '2', ']'])),
+        ('interval_bracket_not_single_character', lambda: M.IntervalGrader(answers=['[', '1', '2', '])'])),
+        ('empty_answer_list', lambda: M.SingleListGrader(answers=[], subgrader=S())),
+        ('empty_answer_list', lambda: M.SingleListGrader(answers=([],), subgrader=S())),
+        ('unordered_unequal_groups', lambda: M.ListGrader(answers=[['a', 'b'], ['c', 'd']], subgraders=M.ListGrader(subgraders=S()),
+                                                          grouping=[1, 1, 1, 2], ordered=False)),
         ('square_matrices_impossible', lambda: M.SquareMatrices(dimension=3, symmetry='antisymmetric', determinant=1)),
         ('square_matrices_impossible', lambda: M.SquareMatrices(determinant=0, traceless=True)),
         ('specify_domain_min_length', lambda: M.helpers.calc.specify_domain(input_shapes=[1, 2], min_length=2) if hasattr(M, 'helpers') else (_ for _ in ()).throw(M.ConfigError('x'))),
